@@ -131,8 +131,21 @@ func hostSurvives(a A) bool {
 
 func oracleHTTPS(c Case, o obs) (key, detail string) {
 	in := c.Intent
-	good := !c.Auth || (!in.NoCreds && pairConfigured(c.Users, in.User, in.Pass))
+	// RFC 7617: the user-id is everything before the FIRST colon of user-pass
+	pu, pp := in.User, in.Pass
+	if up := string(unhx(in.User)) + ":" + string(unhx(in.Pass)); true {
+		i := strings.IndexByte(up, ':')
+		pu, pp = hex.EncodeToString([]byte(up[:i])), hex.EncodeToString([]byte(up[i+1:]))
+	}
+	good := !c.Auth || (!in.NoCreds && pairConfigured(c.Users, pu, pp))
 	out := o.out
+	if !hostSurvives(in.Addr) {
+		// outside the property's well-formedness predicate (outcome reported in the notes); the gate still holds
+		if !good && (o.hasPC || o.class == "ok") {
+			return "http-auth-gate-honours-wrong-credentials", fmt.Sprintf("user %s pass %s (nocreds=%v) not configured, yet class %s", in.User, in.Pass, in.NoCreds, o.class)
+		}
+		return "", ""
+	}
 	for i := 0; i < in.PreFails; i++ {
 		if !bytes.HasPrefix(out, []byte(st407)) {
 			return "http-407", fmt.Sprintf("unauthenticated attempt %d not answered with 407: %q", i, clipB(out))
@@ -143,13 +156,11 @@ func oracleHTTPS(c Case, o obs) (key, detail string) {
 		if o.hasPC || o.class == "ok" {
 			return "http-auth-gate-honours-wrong-credentials", fmt.Sprintf("user %s pass %s (nocreds=%v) not configured, yet class %s", in.User, in.Pass, in.NoCreds, o.class)
 		}
-		if !bytes.Equal(out, []byte(st407)) {
-			return "http-407", fmt.Sprintf("refused request not answered with exactly one 407: %q", clipB(out))
+		// every refused request is answered 407 (what follows on the connection is read as the next request)
+		if hostSurvives(in.Addr) && (len(out) == 0 || len(bytes.ReplaceAll(out, []byte(st407), nil)) != 0) {
+			return "http-407", fmt.Sprintf("refused request not answered with 407: %q", clipB(out))
 		}
 		return "", ""
-	}
-	if !hostSurvives(in.Addr) {
-		return "", "" // outside the property's well-formedness predicate: outcome reported in the notes
 	}
 	if o.class != "ok" || !o.hasPC {
 		return "http-connect-refused", fmt.Sprintf("genuine CONNECT to %v refused: class %s", in.Addr, o.class)
@@ -159,7 +170,7 @@ func oracleHTTPS(c Case, o obs) (key, detail string) {
 	}
 	wantUser := "-"
 	if c.Auth {
-		wantUser = hx(unhx(in.User))
+		wantUser = hx(unhx(pu))
 	}
 	if o.user != wantUser {
 		return "http-user-identity", fmt.Sprintf("client authenticated as %s, server reports %s", wantUser, o.user)
@@ -636,7 +647,7 @@ func (e *engine) excludedReport() {
 			case o.class == "ok" && o.addr == a:
 				verdict = "carried-faithfully"
 			case o.class == "ok":
-				verdict = "ALTERED->" + o.addr.Kind + ":" + string(unhx(o.addr.Host))
+				verdict = "ALTERED->" + o.addr.field()
 			default:
 				verdict = "rejected(" + o.class + ")"
 			}
